@@ -12,7 +12,7 @@ from ..cfg import no_exc
 from ..report import Registry, sub, chain
 from ._helpers_rules_c import (
     attr_store_sites, both, call_nodes, calls_ending, cut_edges, must_pass, quiet, rcfg, test_edges,
-    is_logging_call as _is_log, own_calls as _own_calls,
+    PathSense, is_logging_call as _is_log, outcome as _outcome, own_calls as _own_calls,
 )
 
 R = Registry(
@@ -25,7 +25,10 @@ R = Registry(
         "return; util.queue.Queue touches its deque only under its (single) lock, waits in predicate "
         "loops and notifies the opposite condition after every put/get; every Pool subclass implements "
         "both halves of the checkout protocol; fairy_ref has a closed set of writers and check-in refuses "
-        "a second check-in."
+        "a second check-in; the gc finalizer acts on a record only after comparing the record's fairy_ref "
+        "with the weakref it was called with; _create_connection() only behind a taken overflow slot; the "
+        "limit comparisons of QueuePool agree on the cut point; checkout blocks iff at the limit and times "
+        "out only after blocking; the deque is appended/popped only after a fresh not-full/not-empty outcome."
     ),
     not_decided=(
         "absence of races for all thread schedules (model checking); the unlocked read of _overflow in "
@@ -49,10 +52,10 @@ def _lock_withs(pm, node, stop, lock):
             if any(dotted(i.context_expr) == lock for i in w.items)]
 
 
-@R.rule("C25-R1", floor=7, template="T-GUARD",
+@R.rule("C25-R1", floor=8, template="T-GUARD/T-PATH",
         desc="every write of QueuePool._overflow is under _overflow_lock, or on a branch where "
              "_max_overflow == -1, or in __init__/dispose; in _inc_overflow the limit test and the "
-             "increment share one lock region")
+             "increment share one lock region, and the method answers true exactly on the paths that incremented")
 def r1(ctx):
     ix = ctx.index
     qp = ix.cls(f"{IMPL}::QueuePool")
@@ -117,11 +120,11 @@ def r1(ctx):
         facts = []                        # (kind, compare expr, site node) over all dominating outcomes
         for t, pol in guards:
             facts.extend(_limit_facts(ctx, f, pm, t, pol, t))
-        strict_in = [x for x in facts if x[0] == "strict" and region is not None and _inside(pm, x[2], region)]
+        strict_in = [x for x in facts if x[0] == "lt" and region is not None and _inside(pm, x[2], region)]
         if strict_in:
             continue
-        strict_out = [x for x in facts if x[0] == "strict"]
-        weak = [x for x in facts if x[0] == "weak"]
+        strict_out = [x for x in facts if x[0] == "lt"]
+        weak = [x for x in facts if x[0] == "le"]
         if strict_out:
             problems.append(
                 f"the limit test `{unparse(strict_out[-1][1])}` (line {strict_out[-1][2].lineno}) is evaluated outside the "
@@ -136,6 +139,36 @@ def r1(ctx):
     ctx.require(limited >= 1, "_inc_overflow has no increment on the limited (`_max_overflow != -1`) path")
     ctx.check(not problems, f.key + ":check-then-act", "; ".join(problems),
               "`_overflow < _max_overflow` decided and `+= 1` executed in one `with self._overflow_lock` region", f.loc)
+    # the answer of _inc_overflow() is the caller's licence to open a connection: truthy exactly on the
+    # paths that took a slot
+    incn = [n for st in incs for n in g.nodes_for(st)]
+    after_inc = g.reachable(incn, edge_ok=no_exc)
+    rets = [n for n in g.nodes if n.kind == "stmt" and isinstance(n.stmt, ast.Return)]
+    ctx.require(rets, "_inc_overflow has no return statement")
+    bad = []
+    w = g.witness([g.entry], [g.exit], avoid=[n.id for n in rets], edge_ok=no_exc)
+    if w is not None and any(x in incn for x in w):
+        bad.append("a path that increments falls off the end (returns None): the slot is taken but the caller is told 'no'")
+    for n in rets:
+        v = n.stmt.value
+        if v is None or isinstance(v, ast.Constant):
+            if v is not None and bool(v.value):
+                if g.always_preceded(n.id, incn, edge_ok=no_exc) is not None:
+                    bad.append(f"line {n.stmt.lineno}: `{unparse(n.stmt)}` is reachable without `_overflow += 1`: the caller opens a "
+                               f"connection the counter does not know about")
+            elif n.id in after_inc:
+                bad.append(f"line {n.stmt.lineno}: `{unparse(n.stmt)}` after `_overflow += 1`: the slot is taken but the caller is "
+                           f"told 'no' (nobody will ever release it)")
+            continue
+        flag = v.id if isinstance(v, ast.Name) and _single_local(f.node, v.id) is not None else None
+        ctx.require(flag is not None, f"_inc_overflow returns `{unparse(v)}`; only constants and a single-assignment flag are understood")
+        no = test_edges(g, lambda t, p, flag=flag: t == flag and p is False)
+        if any((flag, True) not in guard_atoms(g.edge_guards(i)) for i in incn if ("self._max_overflow == -1", True) not in guard_atoms(g.edge_guards(i))):
+            bad.append(f"line {n.stmt.lineno}: returns `{flag}` but an increment is not conditional on `{flag}`")
+        if g.witness([g.entry], [n.id], avoid=incn, edge_ok=both(no_exc, cut_edges(no))) is not None:
+            bad.append(f"line {n.stmt.lineno}: returns `{flag}` on a path that neither increments nor knows `{flag}` to be false")
+    ctx.check(not bad, f.key + ":answer-matches-increment", "; ".join(bad),
+              "returns true exactly on the paths that incremented", f.loc)
 
 
 def _anc(pm, node):
@@ -169,14 +202,71 @@ def _conj(test, pol):
     return [(test, pol)]
 
 
+def _dnf(test, pol, fn=None, depth=0):
+    """Branch outcome as a disjunction of conjunctions: [[(expr, polarity), ...], ...].  The false edge of
+    `a and b` is [[(a, False)], [(b, False)]]; boolean single-assignment locals of `fn` are expanded.
+    Capped at 16 disjuncts (AnalysisError beyond: not an idiom we understand)."""
+    if isinstance(test, ast.UnaryOp) and isinstance(test.op, ast.Not):
+        return _dnf(test.operand, not pol, fn, depth)
+    if isinstance(test, ast.BoolOp):
+        parts = [_dnf(v, pol, fn, depth) for v in test.values]
+        if isinstance(test.op, ast.And) == pol:      # conjunction of the parts
+            out = [[]]
+            for d in parts:
+                out = [a + b for a in out for b in d]
+                if len(out) > 16:
+                    from ..errors import AnalysisError
+                    raise AnalysisError(f"condition `{unparse(test)[:80]}` is too branchy to reason about")
+            return out
+        return [c for d in parts for c in d]        # disjunction of the parts
+    if isinstance(test, ast.Name) and fn is not None and depth < 2:
+        loc = _single_local(fn, test.id)
+        if loc is not None and isinstance(loc[0], (ast.Compare, ast.BoolOp, ast.UnaryOp)):
+            return _dnf(loc[0], pol, fn, depth + 1)
+    return [[(test, pol)]]
+
+
+def _edges_establishing(g, fn, fact):
+    """(full, partial): branch edges [(test node, label, succ)] on which `fact(expr, polarity)` holds in
+    every disjunct of the outcome / in some disjuncts only (the latter would need path-sensitive
+    reasoning; see _unguarded)."""
+    out, part = [], []
+    for n in g.nodes:
+        if n.kind != "test":
+            continue
+        for b, lab0 in g.succ[n.id]:
+            lab = _outcome(g, n.id, lab0)
+            if lab is None:
+                continue
+            d = _dnf(n.stmt.test, lab == "true", fn)
+            hits = [any(fact(a, p) for a, p in c) for c in d]
+            if all(hits):
+                out.append((n.id, lab0, b))
+            elif any(hits):
+                part.append((n.id, lab0, b))
+    return out, part
+
+
+def _unguarded(ctx, g, starts, targets, edges, what, base_ok=None):
+    """Witness path (node ids) from `starts` to `targets` that takes no establishing edge, or None.
+    If such a path exists only because some outcome establishes the fact on some of its alternatives
+    (`if a and <fact>` false edge), the idiom is not understood: AnalysisError, never a verdict."""
+    full, part = edges
+    w = g.witness(starts, targets, edge_ok=both(base_ok, cut_edges(full)))
+    if w is not None and part and g.witness(starts, targets, edge_ok=both(base_ok, cut_edges(full + part))) is None:
+        n = g.nodes[part[0][0]]
+        ctx.require(False, f"line {n.stmt.lineno}: an outcome of `{unparse(n.stmt.test)[:80]}` establishes {what} on some "
+                           f"alternatives only and a path depends on it; not understood")
+    return w
+
+
 _OVF, _MAX = "self._overflow", "self._max_overflow"
 
 
 def _limit_facts(ctx, f, pm, test, pol, site, depth=0):
     """What a branch outcome says about `_overflow` vs `_max_overflow`:
-    [("strict" | "weak" | "none", compare expr, node where the comparison is evaluated)].
-    strict: establishes _overflow < _max_overflow; weak: only _overflow <= _max_overflow; none: the
-    opposite side.  Followed through one single-assignment local (`ok = <cmp>` ... `if ok:` -- the site
+    [("lt" | "le" | "ge" | "gt", compare expr, node where the comparison is evaluated)], the relation
+    `_overflow <kind> _max_overflow` that holds on that outcome (mirrored / negated forms normalised).  Followed through one single-assignment local (`ok = <cmp>` ... `if ok:` -- the site
     is the assignment) and one argument-less `self.m()` whose body is a single `return <expr>` (the site
     is the call).  A comparison of the two attributes in any other shape is an unknown idiom."""
     out = []
@@ -196,8 +286,8 @@ def _limit_facts(ctx, f, pm, test, pol, site, depth=0):
                     out.append((kind, cmp_, site if depth else a))
             continue
         attrs = {dotted(x) for x in ast.walk(a) if isinstance(x, ast.Attribute)}
-        if not {_OVF, _MAX} <= attrs:
-            continue
+        if not {_OVF, _MAX} <= attrs or isinstance(a, ast.BoolOp):
+            continue   # (a disjunctive outcome says nothing definite about the counter)
         ctx.require(isinstance(a, ast.Compare) and len(a.ops) == 1
                     and {dotted(a.left), dotted(a.comparators[0])} == {_OVF, _MAX}
                     and isinstance(a.ops[0], (ast.Lt, ast.LtE, ast.Gt, ast.GtE)),
@@ -207,7 +297,7 @@ def _limit_facts(ctx, f, pm, test, pol, site, depth=0):
             op = {ast.Lt: ast.Gt, ast.Gt: ast.Lt, ast.LtE: ast.GtE, ast.GtE: ast.LtE}[op]
         if not p:                     # negate
             op = {ast.Lt: ast.GtE, ast.GtE: ast.Lt, ast.LtE: ast.Gt, ast.Gt: ast.LtE}[op]
-        kind = {ast.Lt: "strict", ast.LtE: "weak"}.get(op, "none")
+        kind = {ast.Lt: "lt", ast.LtE: "le", ast.GtE: "ge", ast.Gt: "gt"}[op]
         out.append((kind, a, site if depth else a))
     return out
 
@@ -215,22 +305,29 @@ def _limit_facts(ctx, f, pm, test, pol, site, depth=0):
 # ---------------------------------------------------------------------- C25-R2 (shared with C26-R5)
 def overflow_pairing(ctx):
     f = ctx.func(f"{IMPL}::QueuePool._do_get")
-    g = rcfg(ctx, f)
+    # strict: `except Exception` does not stop CancelledError / KeyboardInterrupt / GreenletExit, and a
+    # cancelled asyncio checkout inside creator() is an everyday event for AsyncAdaptedQueuePool
+    g = rcfg(ctx, f, strict_exc=True)
     dec = calls_ending(g, "_dec_overflow")
     got = test_edges(g, lambda t, p: t == "self._inc_overflow()" and p is True)
     ctx.require(got, "no `if self._inc_overflow():` branch in QueuePool._do_get")
     region = g.reachable([b for _, _, b in got])
     create = [n for n in calls_ending(g, "_create_connection") if n in region]
-    ctx.require(create, "no _create_connection() after a successful _inc_overflow() in _do_get")
+    ctx.require(calls_ending(g, "_create_connection"), "QueuePool._do_get never calls _create_connection()")
+    if not create:
+        ctx.violation(f.key + ":create-failure",
+                      "the branch taken after a successful _inc_overflow() never calls _create_connection(): the overflow "
+                      "slot is taken and no connection is opened for it (the pool shrinks by one for ever)", f.loc)
     w = None
     for n in create:
         w = g.must_pass([n], [g.raise_exit], dec, edge_ok=quiet(g), start_edge_ok=lambda a, b, lab: lab == "exc")
         if w:
             break
-    ctx.check(w is None, f.key + ":create-failure",
-              "an exception from _create_connection() leaves _do_get with the overflow slot still taken "
-              "(the pool shrinks by one connection for ever)",
-              "create failure -> _dec_overflow() -> re-raise", f.loc, w)
+    if create:
+        ctx.check(w is None, f.key + ":create-failure",
+                  "an exception from _create_connection() leaves _do_get with the overflow slot still taken "
+                  "(the pool shrinks by one connection for ever)",
+                  "create failure -> _dec_overflow() -> re-raise", f.loc, w)
     # no path decrements twice / decrements on success
     succ_ret = [n.id for n in g.nodes if n.kind == "stmt" and isinstance(n.stmt, ast.Return) and n.id in create]
     fr = ctx.func(f"{IMPL}::QueuePool._do_return_conn")
@@ -254,12 +351,169 @@ def overflow_pairing(ctx):
               "overflow record closed", fr.loc)
 
 
-@R.rule("C25-R2", floor=3, template="T-PATH",
+@R.rule("C25-R2", floor=14, template="T-PATH/T-GUARD/T-SIBLING",
         desc="_do_get: every exceptional exit of _create_connection() after a successful _inc_overflow() "
              "passes _dec_overflow(); _do_return_conn: on Full the record is closed and _dec_overflow() "
-             "runs even if close() raises")
+             "runs even if close() raises; _create_connection() only behind a successful _inc_overflow(); "
+             "all _overflow/_max_overflow comparisons of QueuePool cut at `<` / `>=`; the queue get blocks "
+             "iff at the limit, for self._timeout; TimeoutError only after a blocking get and while still "
+             "at the limit; the put on return is non-blocking")
 def r2(ctx):
     overflow_pairing(ctx)
+    _checkout_limits(ctx)
+
+
+def _arg_for(call, params, name):
+    """expression bound to parameter `name` of a method (params include self) by a call, or None."""
+    for k in call.keywords:
+        if k.arg == name:
+            return k.value
+    pos = params.index(name) - 1 if name in params else -1
+    if 0 <= pos < len(call.args) and not any(isinstance(a, ast.Starred) for a in call.args[:pos + 1]):
+        return call.args[pos]
+    return None
+
+
+def _int_const(e):
+    if isinstance(e, ast.UnaryOp) and isinstance(e.op, ast.USub) and isinstance(e.operand, ast.Constant) \
+            and isinstance(e.operand.value, int) and not isinstance(e.operand.value, bool):
+        return -e.operand.value
+    if isinstance(e, ast.Constant) and isinstance(e.value, int) and not isinstance(e.value, bool):
+        return e.value
+    return None
+
+
+def _checkout_limits(ctx):
+    """QueuePool._do_get / _do_return_conn: who may open a connection, when a checkout blocks, when it
+    gives up; a returning thread never blocks.  (Not shared with C26.)"""
+    ix = ctx.index
+    f = ctx.func(f"{IMPL}::QueuePool._do_get")
+    g = rcfg(ctx, f)
+    pm = f.module.parents()
+    qc = ix.cls(f"{QUEUE}::QueueCommon")
+    # (a) a new connection is opened only by the holder of a freshly taken overflow slot
+    got = test_edges(g, lambda t, p: t == "self._inc_overflow()" and p is True)
+    ctx.require(got, "no `if self._inc_overflow():` branch in QueuePool._do_get")
+    create = calls_ending(g, "_create_connection")
+    ctx.require(create, "QueuePool._do_get never creates a connection")
+    w = g.witness([g.entry], create, edge_ok=cut_edges(got))
+    ctx.check(w is None, f.key + ":create-needs-slot",
+              "_create_connection() is reachable without a successful _inc_overflow(): connections are opened that "
+              "the overflow counter does not know about (more than pool_size + max_overflow open)",
+              "every _create_connection() is behind `if self._inc_overflow()`", f.loc, g.describe_path(w) if w else None)
+    # (b) all comparisons of the counter with the limit cut at the same point as _inc_overflow (`<` / `>=`)
+    qp = ix.cls(f"{IMPL}::QueuePool")
+    n_cmp = 0
+    for name, m in sorted(qp.methods.items()):
+        sites = [c for c in walk_local(m.node) if isinstance(c, ast.Compare)
+                 and {_OVF, _MAX} <= {dotted(x) for x in ast.walk(c) if isinstance(x, ast.Attribute)}]
+        for i, c in enumerate(sites):
+            kind = _limit_facts(ctx, m, pm, c, True, c)[0][0]
+            n_cmp += 1
+            ctx.check(kind in ("lt", "ge"), f"{m.key}:limit-cut" + (f"#{i}" if len(sites) > 1 else ""),
+                      f"`{unparse(c)}` (line {c.lineno}) splits the counter at `_overflow {'<=' if kind == 'le' else '>'} "
+                      f"_max_overflow`, the other limit tests at `<` / `>=`: with _overflow == _max_overflow one site says "
+                      f"'room left' while _inc_overflow() refuses (checkout spins / never waits / never times out)",
+                      f"`{unparse(c)}` agrees with `_overflow < _max_overflow`", f"{m.module.path}:{c.lineno}")
+    ctx.require(n_cmp >= 2, "fewer than two comparisons of _overflow with _max_overflow in QueuePool")
+    # (b') ... and all tests for "no limit" separate exactly _max_overflow == -1 from the rest
+    n_un = 0
+    for name, m in sorted(qp.methods.items()):
+        sites = []
+        for c in walk_local(m.node):
+            if isinstance(c, ast.Compare) and len(c.ops) == 1:
+                l, r_ = c.left, c.comparators[0]
+                k = _int_const(r_) if dotted(l) == _MAX else _int_const(l) if dotted(r_) == _MAX else None
+                if k is not None:
+                    sites.append((c, k, dotted(l) != _MAX))
+        for i, (c, k, mirrored) in enumerate(sites):
+            op = type(c.ops[0])
+            if mirrored:
+                op = {ast.Lt: ast.Gt, ast.Gt: ast.Lt, ast.LtE: ast.GtE, ast.GtE: ast.LtE}.get(op, op)
+            # the limit is -1 (none) or >= 0: which cut points separate the two?
+            good = (op in (ast.Eq, ast.NotEq, ast.Gt, ast.LtE) and k == -1) or (op in (ast.GtE, ast.Lt) and k == 0)
+    
+            n_un += 1
+            ctx.check(good, f"{m.key}:unlimited-cut" + (f"#{i}" if len(sites) > 1 else ""),
+                      f"`{unparse(c)}` (line {c.lineno}) does not separate 'no limit' (_max_overflow == -1) from a real limit "
+                      f"(>= 0) the way _inc_overflow/_dec_overflow do: the locked and the unlocked protocol get mixed, or an "
+                      f"unlimited pool starts waiting", f"`{unparse(c)}` cuts between -1 and 0", f"{m.module.path}:{c.lineno}")
+    ctx.require(n_un >= 2, "fewer than two tests of _max_overflow against the 'no limit' value in QueuePool")
+    # (b'') every normal exit of _do_get hands out a record obtained from the queue, from _create_connection() or
+    #       from the retry
+    producers = ("self._pool.get", "self._create_connection", "self._do_get")
+    bad = []
+    for n in g.nodes:
+        if n.kind == "stmt" and isinstance(n.stmt, ast.Return) and not n.copy:
+            v = n.stmt.value
+            if isinstance(v, ast.Name) and _single_local(f.node, v.id) is not None:
+                v = _single_local(f.node, v.id)[0]
+            if not (isinstance(v, ast.Call) and call_name(v) in producers):
+                bad.append(f"line {n.stmt.lineno}: `{unparse(n.stmt)[:60]}`")
+    rets = [n.id for n in g.nodes if n.kind == "stmt" and isinstance(n.stmt, ast.Return)]
+    if g.witness([g.entry], [g.exit], avoid=rets, edge_ok=no_exc) is not None:
+        bad.append("a path falls off the end (returns None)")
+    ctx.check(not bad, f.key + ":returns-a-record",
+              "; ".join(bad) + ": the checkout does not hand out the record it obtained (the connection taken from the queue / "
+              "just opened is lost while the counters still count it)",
+              "every return hands out pool.get() / _create_connection() / retry", f.loc)
+    # (c) the checkout blocks on the queue exactly when the pool is at its limit, for self._timeout
+    gets = [c for n in calls_ending(g, "get") for c in _own_calls(g.nodes[n]) if call_name(c) == "self._pool.get"]
+    ctx.require(len(gets) == 1, f"QueuePool._do_get has {len(gets)} calls of self._pool.get(), expected one")
+    call = gets[0]
+    sig = qc.methods["get"].params
+    block, tmo = _arg_for(call, sig, "block"), _arg_for(call, sig, "timeout")
+    ctx.require(block is not None, "self._pool.get() is called without an explicit `block` argument")
+    bfacts = {k for k, _c, _s in _limit_facts(ctx, f, pm, block, True, block)}
+    tmo_d = _operand(f.node, tmo) if tmo is not None else None
+    ctx.check("ge" in bfacts and tmo_d == "self._timeout", f.key + ":blocks-iff-at-limit",
+              (f"self._pool.get(block=`{unparse(block)}`, ...) does not depend on `_overflow >= _max_overflow`: "
+               f"the checkout waits although it may open a connection, or never waits at the limit"
+               if "ge" not in bfacts else
+               f"self._pool.get(..., timeout=`{unparse(tmo) if tmo is not None else 'None'}`) does not wait for the pool's "
+               f"configured timeout (self._timeout)"),
+              "block <- `_overflow >= _max_overflow`, timeout <- self._timeout", f"{f.module.path}:{call.lineno}")
+    # (d) TimeoutError only after a blocking wait, and only while still at the limit
+    touts = [n.id for n in g.nodes if n.kind == "stmt" and isinstance(n.stmt, ast.Raise) and n.stmt.exc is not None
+             and (dotted(n.stmt.exc.func if isinstance(n.stmt.exc, ast.Call) else n.stmt.exc) or "").endswith("TimeoutError")]
+    ctx.require(touts, "QueuePool._do_get never raises TimeoutError")
+    bad = []
+    get_nodes = [n for n in calls_ending(g, "get") if any(c is call for c in _own_calls(g.nodes[n]))]
+    after_get = g.reachable(get_nodes)
+
+    def fresh(site):   # the comparison is evaluated after the queue get returned / timed out
+        ids = g.nodes_for(site) if isinstance(site, ast.stmt) else g.nodes_containing(site)
+        return any(i in after_get and i not in get_nodes for i in ids)
+    for n in touts:
+        guards = g.edge_guards(n)
+        facts = {k for t, pol in guards for k, _c, site in _limit_facts(ctx, f, pm, t, pol, t) if fresh(site)}
+        waited = isinstance(block, ast.Name) and (block.id, True) in [(unparse(a), p) for t, pol in guards for a, p in _conj(t, pol)]
+        if isinstance(block, ast.Name) is False:
+            waited = all(any(unparse(a) == unparse(b_) and p == bp for t, pol in guards for a, p in _conj(t, pol))
+                         for b_, bp in _conj(block, True))
+        if not waited:
+            bad.append(f"line {g.nodes[n].stmt.lineno}: TimeoutError is raised on a path that did not block on the queue "
+                       f"(`{unparse(block)}` not known true): the checkout gives up without waiting for a returned connection")
+        elif "ge" not in facts:
+            bad.append(f"line {g.nodes[n].stmt.lineno}: TimeoutError is raised without re-testing `_overflow >= _max_overflow` after the wait "
+                       f"(a slot freed by an invalidated connection would allow opening a new one)")
+    ctx.check(not bad, f.key + ":timeout-only-after-wait", "; ".join(bad),
+              "TimeoutError only after a blocking get() and while still at the limit", f.loc)
+    # (e) a returning thread never blocks: the put that `except Full` guards is non-blocking
+    fr = ctx.func(f"{IMPL}::QueuePool._do_return_conn")
+    gr = rcfg(ctx, fr)
+    puts = [c for n in calls_ending(gr, "put", "put_nowait") for c in _own_calls(gr.nodes[n])
+            if (call_name(c) or "").rsplit(".", 1)[-1] in ("put", "put_nowait")]
+    ctx.require(puts, "no queue put in QueuePool._do_return_conn")
+    bad = []
+    for c in puts:
+        if call_name(c).endswith("put_nowait"):
+            continue
+        b = _arg_for(c, qc.methods["put"].params, "block")
+        if not (isinstance(b, ast.Constant) and b.value is False):
+            bad.append(f"`{unparse(c)}` (line {c.lineno}) may block: with a full queue the returning thread hangs instead of "
+                       f"closing the overflow connection (Full is never raised, the counter never drops)")
+    ctx.check(not bad, fr.key + ":put-nonblocking", "; ".join(bad), "put(record, block=False)", fr.loc)
 
 
 # ---------------------------------------------------------------------- C25-R3 / R4  (util.queue.Queue)
@@ -323,10 +577,12 @@ def r3(ctx):
 PRED = {"put": ("_full", "Full", "_put"), "get": ("_empty", "Empty", "_get")}
 
 
-@R.rule("C25-R4", floor=6, template="T-GUARD/T-PATH",
+@R.rule("C25-R4", floor=13, template="T-GUARD/T-PATH",
         desc="Queue.put/get: each Condition.wait() sits in a `while <predicate>()` loop under the same "
-             "condition; the mutation is followed by notify() of the condition the opposite side waits "
-             "on, on every normal path; timed waits raise Full/Empty when time runs out")
+             "condition; every path from entry / from a wait to _put()/_get() leaves through a fresh "
+             "`not _full()` / `not _empty()` outcome; wait() only with block=True, untimed iff timeout is None, "
+             "on every turn of the loop; get() returns what _get() removed; the mutation is followed by notify() of the condition "
+             "the opposite side waits on, on every normal path; timed waits raise Full/Empty when time runs out")
 def r4(ctx):
     q, lock, conds, touching = _queue_facts(ctx)
     pm = q.module.parents()
@@ -371,6 +627,81 @@ def r4(ctx):
         ctx.check(timed_ok, f"{m.key}:timeout",
                   f"a timed wait in {name}() has no `raise {exc_name}` when the remaining time is used up",
                   f"timeout -> raise {exc_name}", m.loc)
+    # predicate-before-mutation: the deque is appended to only when it has room and popped only when it
+    # has an item.  On every path from the entry of put()/get() -- and from every wait(), which gives
+    # the lock away -- to self._put()/self._get() the last thing that happened to the predicate is the
+    # outcome "not full" / "not empty" (an `if`-false edge, or leaving the `while`), whatever the
+    # blocking mode.  (This subsumes the classic while->if mistake on the path level.)
+    for name, (pred, exc_name, mut) in PRED.items():
+        m = ctx.method(q.key, name)
+        g = ctx.cfg(m)
+        muts = call_nodes(g, lambda nm, c: nm == f"self.{mut}")
+        ctx.require(muts, f"Queue.{name} does not call self.{mut}()")
+        clear = _edges_establishing(
+            g, None,
+            lambda a, p, pred=pred: isinstance(a, ast.Call) and call_name(a) == f"self.{pred}" and not a.args and p is False)
+        ctx.require(clear[0] or clear[1], f"Queue.{name} never branches on `not self.{pred}()`")
+        waits = call_nodes(g, lambda nm, c: nm.endswith(".wait") and nm[:-5] in conds)
+        w = _unguarded(ctx, g, [g.entry] + waits, muts, clear, f"`not self.{pred}()`", no_exc)
+        ctx.check(w is None, f"{m.key}:{pred[1:]}-checked-before-{mut[1:]}",
+                  f"self.{mut}() is reachable without a fresh `not self.{pred}()` outcome under the lock: "
+                  + ("an item is appended to a full queue (more than maxsize = pool_size idle connections)" if name == "put"
+                     else "an item is taken from an empty deque (IndexError instead of Empty / waiting)"),
+                  f"every path (from entry and from every wait) to self.{mut}() leaves through `not self.{pred}()`",
+                  m.loc, g.describe_path(w) if w else None)
+    # blocking mode: a caller that said block=False never waits; wait() without a timeout only when the
+    # caller gave none, wait(t) only when it gave one; and a wait loop gives the lock away on every turn
+    for name, (pred, exc_name, mut) in PRED.items():
+        m = ctx.method(q.key, name)
+        g = ctx.cfg(m)
+        ctx.require("block" in m.params and "timeout" in m.params, f"Queue.{name} has no block / timeout parameters")
+        waits = [(n, c) for n in call_nodes(g, lambda nm, c: nm.endswith(".wait") and nm[:-5] in conds)
+                 for c in _own_calls(g.nodes[n]) if (call_name(c) or "").endswith(".wait")]
+        bad = []
+        ps = PathSense(g)
+        # exact case split over the two mode inputs (robust against any arrangement of the mode tests)
+        reach = {}
+        for blk in (True, False):
+            for tnone in (True, False):
+                facts = [("block", blk), ("block is None", False), ("timeout is None", tnone)] + ([("timeout", False)] if tnone else [])
+                for n, c in waits:
+                    if ps.witness([g.entry], [n], edge_ok=no_exc, init_facts=facts) is not None:
+                        reach.setdefault(n, set()).add((blk, tnone))
+        for n, c in waits:
+            timed = bool(c.args or c.keywords)
+            modes = reach.get(n, set())
+            if any(not blk for blk, _ in modes):
+                bad.append(f"line {c.lineno}: `{unparse(c)}` is reachable with block=False"
+                           + (" (QueuePool returns connections with block=False: the returning thread would hang on a full queue)" if name == "put"
+                              else " (a non-blocking checkout would wait)"))
+            if any(tnone is timed for _, tnone in modes):
+                bad.append(f"line {c.lineno}: `{unparse(c)}` " + ("waits for a bounded time although no timeout was given" if timed else
+                           "waits without bound although the caller gave a timeout (the pool's checkout never times out)"))
+            if not modes:
+                bad.append(f"line {c.lineno}: `{unparse(c)}` is unreachable for every combination of block / timeout")
+        ctx.check(not bad, f"{m.key}:wait-mode", "; ".join(bad), f"{len(waits)} wait(s) consistent with block / timeout", m.loc)
+        loops = [n for n in g.nodes if n.kind == "test" and isinstance(n.stmt, ast.While)
+                 and any(call_name(c) == f"self.{pred}" for c in calls_in(n.stmt.test))]
+        ctx.require(loops, f"Queue.{name} has no `while self.{pred}()` loop")
+        wn = [n for n, _ in waits]
+        w = None
+        for t in loops:
+            body = [b for b, lab in g.succ[t.id] if lab == "true"]
+            w = w or must_pass(g, body, [t.id], wn, edge_ok=no_exc)
+        ctx.check(w is None, f"{m.key}:loop-waits",
+                  f"a `while self.{pred}()` loop can go round without wait(): it spins while holding the queue lock, so the "
+                  f"other side can never {'take an item' if name == 'put' else 'put a connection back'} (the pool stops)",
+                  "every turn of the predicate loops passes wait()", m.loc, w)
+    mget = ctx.method(q.key, "get")
+    bad = []
+    for r in [n for n in walk_local(mget.node) if isinstance(n, ast.Return)]:
+        v = r.value
+        if isinstance(v, ast.Name) and _single_local(mget.node, v.id) is not None:
+            v = _single_local(mget.node, v.id)[0]
+        if not (isinstance(v, ast.Call) and call_name(v) == "self._get"):
+            bad.append(f"line {r.lineno}: `{unparse(r)}`")
+    ctx.check(not bad, f"{mget.key}:returns-item", "; ".join(bad) + " does not return the item taken by self._get(): the record "
+              "leaves the queue and reaches nobody", "get() returns what _get() removed", mget.loc)
     # notify pairing
     for name, (pred, exc_name, mut) in PRED.items():
         other = "get" if name == "put" else "put"
@@ -437,9 +768,11 @@ FAIRY_REF_WRITERS = {
 }
 
 
-@R.rule("C25-R6", floor=6, template="T-OWN",
+@R.rule("C25-R6", floor=10, template="T-OWN/T-GUARD",
         desc="_ConnectionRecord.fairy_ref is written only by checkout / checkin / detach / __init__; "
-             "checkin refuses a second check-in before _return_conn and clears fairy_ref first")
+             "checkin refuses a second check-in before _return_conn and clears fairy_ref first; the weakref "
+             "callback hands its own weakref to the finalizer, which acts on the record on the gc path only "
+             "behind `record.fairy_ref is ref` (the collected fairy still owns the record)")
 def r6(ctx):
     sites = attr_store_sites(ctx.index, "fairy_ref")
     ctx.require(sites, "no store to fairy_ref found")
@@ -457,6 +790,7 @@ def r6(ctx):
     ret = calls_ending(g, "_return_conn")
     ctx.require(ret, "no _return_conn() in checkin")
     refused = True
+    switches = []     # parameter atoms that qualify the refusal: [(atom text, polarity)] per guarding test
     for n in ret:
         ok = False
         for t, pol in g.edge_guards(n):
@@ -467,11 +801,39 @@ def r6(ctx):
                 a == "self.fairy_ref is None" or names_in(ast.parse(a, mode="eval")) <= set(f.params) - {"self"} for a, _ in atoms
             ):
                 ok = True
+                switches.append([(a, p) for a, p in atoms if a != "self.fairy_ref is None"])
         refused = refused and ok
     ctx.check(refused, f.key + ":double-checkin",
               "_return_conn() is reachable although fairy_ref is already None (record checked in twice -> "
               "the same record sits in the queue twice and is handed to two holders)",
               "second check-in returns before _return_conn", f.loc)
+    if refused:
+        # fairy_ref is None in two situations: after a check-in (refuse!) and before any fairy exists (the
+        # record has just been taken from the pool and get_connection() failed: it MUST go back).  Only a
+        # caller-supplied switch can tell them apart; ordinary callers do not pass it, so its default has to
+        # select "refuse".
+        from ..astutil import func_defaults
+        defaults = func_defaults(f.node)
+        bad_default, n_sw = [], 0
+        for sw in switches:
+            for a, p in sw:
+                n_sw += 1
+                ctx.require(a in f.params, f"checkin: refusal of a double check-in is qualified by `{a}`, not a plain parameter; not understood")
+                dv = defaults.get(a)
+                ctx.require(isinstance(dv, ast.Constant), f"checkin: parameter `{a}` has no constant default")
+                if bool(dv.value) is not p:
+                    bad_default.append(f"`{a}` defaults to {dv.value!r}")
+        ctx.check(not bad_default, f.key + ":double-checkin-refused-by-default",
+                  f"the refusal of a second check-in is switched off for ordinary callers ({'; '.join(bad_default)}): "
+                  f"_finalize_fairy / fairy close call checkin() without arguments, so a record is returned twice",
+                  "plain checkin() refuses when fairy_ref is None", f.loc)
+        ctx.check(n_sw >= 1 and all(sw for sw in switches), f.key + ":pre-fairy-checkin-not-refused",
+                  "check-in is refused whenever fairy_ref is None, also for a record whose fairy was never created "
+                  "(checkout failed in get_connection(): fairy_ref is still None): the record is never returned, the "
+                  "pool loses the slot", "a parameter distinguishes 'never had a fairy' from 'already checked in'", f.loc)
+    else:
+        for asp in (":double-checkin-refused-by-default", ":pre-fairy-checkin-not-refused"):
+            ctx.violation(f.key + asp, "not established: checkin has no `fairy_ref is None` refusal in front of _return_conn()", f.loc)
     clears = [n for d, t, st in attr_stores(f.node) if d == "self.fairy_ref" and isinstance(st, ast.Assign)
               and isinstance(st.value, ast.Constant) and st.value.value is None for n in g.nodes_for(st)]
     w = None
@@ -498,20 +860,6 @@ def _operand(fn, e):
         if loc is not None and dotted(loc[0]):
             return dotted(loc[0])
     return dotted(e)
-
-
-def _outcome_atoms(fn, test, pol, depth=0):
-    """Conjunctive atoms (expr, polarity) of a branch outcome with boolean single-assignment locals
-    (`is_gc_cleanup = ref is not None`) expanded."""
-    out = []
-    for a, p in _conj(test, pol):
-        if isinstance(a, ast.Name) and depth < 2:
-            loc = _single_local(fn, a.id)
-            if loc is not None and isinstance(loc[0], (ast.Compare, ast.BoolOp, ast.UnaryOp)):
-                out.extend(_outcome_atoms(fn, loc[0], p, depth + 1))
-                continue
-        out.append((a, p))
-    return out
 
 
 def _gc_ownership(ctx):
@@ -556,6 +904,9 @@ def _gc_ownership(ctx):
         ctx.violation(key0, f"the weakref callback does not pass the weakref it is called with (`{cb_arg}`) to {F.name}(): "
                             f"the finalizer cannot tell whether the dead fairy still owns `{rec_name}`",
                       f"{co.module.path}:{call.lineno}")
+        ctx.violation(F.key + ":gc-callback-owns-record",
+                      f"{F.name}() is not given the weakref of the collected fairy, so no comparison with `{recp[0]}.fairy_ref` "
+                      f"can establish that the gc callback still owns the record", F.loc)
         return
     ctx.ok(key0, f"{F.name}({recp[0]}={rec_name}, {refp[0]}={cb_arg})")
     recp, refp = recp[0], refp[0]
@@ -577,19 +928,14 @@ def _gc_ownership(ctx):
                                                     or (r_ == refp and isinstance(a.left, ast.Constant) and a.left.value is None)) and same:
             return "direct"
         return None
-    cut, kinds = [], set()
-    for n in g.nodes:
-        if n.kind != "test":
-            continue
-        for b, lab in g.succ[n.id]:
-            if lab not in ("true", "false", "loop"):
-                continue
-            pol = lab == "true"
-            for a, p in _outcome_atoms(fn, n.stmt.test, pol):
-                k = establishes(a, p)
-                if k:
-                    cut.append((n.id, lab, b))
-                    kinds.add(k)
+    kinds = set()
+
+    def fact(a, p):
+        k = establishes(a, p)
+        if k:
+            kinds.add(k)
+        return bool(k)
+    cut = _edges_establishing(g, fn, fact)
     actions = []
     for n in g.nodes:
         if n.kind not in ("stmt", "test", "with_enter", "for") or n.stmt is None or isinstance(n.stmt, (ast.Assert, ast.Delete)):
@@ -606,10 +952,9 @@ def _gc_ownership(ctx):
                 actions.append((n.id, c))
                 break
     ctx.require(actions, f"{F.key} never acts on `{recp}` (no method call on it, never passed on)")
-    ok_edges = cut_edges(cut)
     bad = []
     for nid, c in actions:
-        w = g.witness([g.entry], [nid], edge_ok=ok_edges)
+        w = _unguarded(ctx, g, [g.entry], [nid], cut, f"`{refp} is None` / `{recp}.fairy_ref is {refp}`")
         if w is not None:
             bad.append((c, g.describe_path(w)))
     key = F.key + ":gc-callback-owns-record"
@@ -712,6 +1057,77 @@ R.mutant("benign-finalize-fairy-reads-connection-before-guard", POOL,
 R.mutant("benign-checkout-callback-arg-renamed", POOL,
          chain(sub("            lambda ref: (\n", "            lambda wr: (\n"),
                sub("                    None, rec, pool, ref, echo, transaction_was_reset=False\n", "                    None, rec, pool, wr, echo, transaction_was_reset=False\n")), None)
+# --- sweep-driven clauses (R2 checkout limits, R4 predicate-before-mutation)
+R.mutant("do-get-creates-when-slot-refused", IMPL,
+         sub("                raise\n        else:\n            return self._do_get()\n", "                raise\n        else:\n            return self._create_connection()\n"), "C25-R2")
+R.mutant("do-get-slot-test-negated", IMPL,
+         sub("        if self._inc_overflow():\n            try:", "        if not self._inc_overflow():\n            try:"), "C25-R2")
+R.mutant("do-get-wait-flag-off-by-one", IMPL,
+         sub("        wait = use_overflow and self._overflow >= self._max_overflow\n", "        wait = use_overflow and self._overflow > self._max_overflow\n"), "C25-R2")
+R.mutant("do-get-retest-off-by-one", IMPL,
+         sub("        if use_overflow and self._overflow >= self._max_overflow:\n", "        if use_overflow and self._overflow > self._max_overflow:\n"), "C25-R2")
+R.mutant("do-get-queue-get-args-swapped", IMPL,
+         sub("            return self._pool.get(wait, self._timeout)\n", "            return self._pool.get(self._timeout, wait)\n"), "C25-R2")
+R.mutant("do-get-always-blocks", IMPL,
+         sub("            return self._pool.get(wait, self._timeout)\n", "            return self._pool.get(True, self._timeout)\n"), "C25-R2")
+R.mutant("do-get-waits-without-timeout", IMPL,
+         sub("            return self._pool.get(wait, self._timeout)\n", "            return self._pool.get(wait)\n"), "C25-R2")
+R.mutant("do-get-timeout-without-having-waited", IMPL,
+         sub("            if not wait:\n                return self._do_get()\n", "            if wait:\n                return self._do_get()\n"), "C25-R2")
+R.mutant("do-get-timeout-when-not-at-limit", IMPL,
+         sub("        if use_overflow and self._overflow >= self._max_overflow:\n", "        if not (use_overflow and self._overflow >= self._max_overflow):\n"), "C25-R2")
+R.mutant("return-conn-put-blocks", IMPL,
+         sub("            self._pool.put(record, False)\n", "            self._pool.put(record)\n"), "C25-R2")
+R.mutant("queue-put-nonblocking-ignores-full", QUEUE,
+         sub("                if self._full():\n                    raise Full\n", "                if self._full():\n                    pass\n"), "C25-R4")
+R.mutant("queue-get-nonblocking-test-negated", QUEUE,
+         sub("                if self._empty():\n                    raise Empty\n", "                if not self._empty():\n                    raise Empty\n"), "C25-R4")
+R.mutant("queue-put-blocking-mode-skips-wait", QUEUE,
+         sub("            elif timeout is None:\n                while self._full():\n                    self.not_full.wait()\n",
+             "            elif timeout is None:\n                while not self._full():\n                    self.not_full.wait()\n"), "C25-R4")
+R.mutant("benign-do-get-queue-get-keywords", IMPL,
+         sub("            return self._pool.get(wait, self._timeout)\n", "            return self._pool.get(timeout=self._timeout, block=wait)\n"), None)
+R.mutant("benign-do-get-wait-flag-mirrored", IMPL,
+         sub("        wait = use_overflow and self._overflow >= self._max_overflow\n", "        wait = use_overflow and not (self._max_overflow > self._overflow)\n"), None)
+R.mutant("benign-do-get-timeout-branch-order", IMPL,
+         sub("            if not wait:\n                return self._do_get()\n            else:\n                raise exc.TimeoutError(", "            if not wait:\n                return self._do_get()\n            raise exc.TimeoutError("), None)
+R.mutant("benign-return-conn-put-nowait", IMPL,
+         sub("            self._pool.put(record, False)\n", "            self._pool.put_nowait(record)\n"), None)
+R.mutant("benign-queue-put-nonblocking-inverted-test", QUEUE,
+         sub("                if self._full():\n                    raise Full\n", "                if not self._full():\n                    pass\n                else:\n                    raise Full\n"), None)
+R.mutant("inc-overflow-says-yes-without-increment", IMPL,
+         sub(_INC, "        with self._overflow_lock:\n            if self._overflow < self._max_overflow:\n                self._overflow += 1\n                return True\n            else:\n                return True\n"), "C25-R1")
+R.mutant("inc-overflow-says-no-after-increment", IMPL,
+         sub(_INC, "        with self._overflow_lock:\n            if self._overflow < self._max_overflow:\n                self._overflow += 1\n                return None\n            else:\n                return False\n"), "C25-R1")
+R.mutant("checkin-refusal-off-by-default", POOL,
+         sub("    def checkin(self, _fairy_was_created: bool = True) -> None:\n", "    def checkin(self, _fairy_was_created: bool = False) -> None:\n"), "C25-R6")
+R.mutant("checkin-refuses-record-that-never-had-a-fairy", POOL,
+         sub("        if self.fairy_ref is None and _fairy_was_created:", "        if self.fairy_ref is None:"), "C25-R6")
+R.mutant("do-get-unlimited-test-includes-no-limit", IMPL,
+         sub("        use_overflow = self._max_overflow > -1\n", "        use_overflow = self._max_overflow >= -1\n"), "C25-R2")
+R.mutant("do-get-drops-record-taken-from-queue", IMPL,
+         sub("            return self._pool.get(wait, self._timeout)\n", "            self._pool.get(wait, self._timeout)\n            return None\n"), "C25-R2")
+R.mutant("do-get-dec-not-on-cancellation", IMPL,
+         sub("            except:\n                with util.safe_reraise():\n                    self._dec_overflow()\n                raise\n",
+             "            except Exception:\n                with util.safe_reraise():\n                    self._dec_overflow()\n                raise\n"), "C25-R2")
+R.mutant("queue-get-blocking-flag-negated", QUEUE,
+         sub("            if not block:\n                if self._empty():\n", "            if block:\n                if self._empty():\n"), "C25-R4")
+R.mutant("queue-put-untimed-wait-when-timeout-given", QUEUE,
+         sub("            elif timeout is None:\n                while self._full():\n", "            elif timeout is not None:\n                while self._full():\n"), "C25-R4")
+R.mutant("queue-get-spins-holding-the-lock", QUEUE,
+         sub("                while self._empty():\n                    self.not_empty.wait()\n", "                while self._empty():\n                    pass\n"), "C25-R4")
+R.mutant("queue-get-returns-nothing", QUEUE,
+         sub("            self.not_full.notify()\n            return item\n", "            self.not_full.notify()\n            return None\n"), "C25-R4")
+R.mutant("benign-queue-get-rename-item", QUEUE,
+         sub("            item = self._get()\n            self.not_full.notify()\n            return item\n", "            taken = self._get()\n            self.not_full.notify()\n            return taken\n"), None)
+R.mutant("benign-do-get-except-baseexception", IMPL,
+         sub("            except:\n                with util.safe_reraise():\n                    self._dec_overflow()\n                raise\n",
+             "            except BaseException:\n                with util.safe_reraise():\n                    self._dec_overflow()\n                raise\n"), None)
+R.mutant("benign-do-get-unlimited-test-ne", IMPL,
+         sub("        use_overflow = self._max_overflow > -1\n", "        use_overflow = self._max_overflow != -1\n"), None)
+R.mutant("benign-queue-get-mode-tests-reordered", QUEUE,
+         sub("            if not block:\n                if self._empty():\n                    raise Empty\n            elif timeout is None:\n                while self._empty():\n                    self.not_empty.wait()\n            else:\n",
+             "            if block and timeout is None:\n                while self._empty():\n                    self.not_empty.wait()\n            elif not block:\n                if self._empty():\n                    raise Empty\n            else:\n"), None)
 # benign refactors
 R.mutant("benign-queue-rename-local", QUEUE, sub("remaining", "left", count=6), None)
 R.mutant("benign-checkedout-reordered", IMPL,
